@@ -924,12 +924,14 @@ class Terminal:
                 if coecmd >> 12 != CoECmd.SDORES.value:
                     raise EtherCatError(
                         f"expected CoE cmd SDORES, got {coecmd}")
-                if sdocmd & 0xe0 != 0:
-                    raise EtherCatError(f"requested index {index}, got {idx}")
-                if sdocmd & 1 and len(data) == 7:
-                    data = data[:3 + (sdocmd >> 1) & 7]
-                ret += data[3:]
-                retsize += len(data) - 3
+                if (sdocmd & 0xe0) != 0:
+                    raise EtherCatError(
+                        f"expected upload segment, got {sdocmd:x}")
+                segment = data[3:]
+                if len(segment) == 7:  # short segments are padded to 7 bytes
+                    segment = segment[:7 - ((sdocmd >> 1) & 7)]
+                ret.append(segment)
+                retsize += len(segment)
                 if sdocmd & 1:
                     break
                 toggle ^= 0x10
